@@ -132,8 +132,74 @@ def run(ctx):
         if cls in ("indefinite", "nan_entry", "zero_middle_pivot") and tol is not None and st == "ok":
             ctx.violation(f"Ok returned for a {cls} matrix with the stability test on", r, observed=a)
 
+    through_samples(ctx)
     if ctx.mismatches and not ctx.violations:
         search_failing_input(ctx)
+
+
+def through_samples(ctx):
+    """the stability test as seen through `sample`: one- to three-loop samplers with matrix_stability_test = Some(tol), tolerances
+    around the rounding level of inverse*L (0, 1e-17, 1.2e-16, 3e-16, 1e-13) and ordinary ones; uniform and corner points.
+    Model: lMatrix on the implementation's logged Feynman parameters (bit-exact: + and * only), then decompose with the same
+    tolerance; its Ok/ZeroDet/Unstable must be the sample's. Oracle: an Ok sample has no NaN and its residual is <= tol."""
+    from .. import samples as S
+    rng = ctx.rng
+    ss = S.generate(ctx, 8 if ctx.quick else 50, 6 if ctx.quick else 12, max_e=6, max_loops=3, routings_per_graph=1,
+                    kinds=("uniform", "uniform", "corner"))
+    ss += S.generate(ctx, 6 if ctx.quick else 30, 12 if ctx.quick else 24, max_e=5, max_loops=1, routings_per_graph=1,
+                     kinds=("uniform", "uniform", "uniform", "corner"), names=["bubble", "triangle", "box", "pentagon", "tadpole"])
+    for s in ss:
+        tol = rng.choice([0.0, 1e-17, 1.2e-16, 3e-16, 1e-13, 1e-6])
+        s["tol"] = tol
+        s["req"] = S.sample_request(s["case"], s["routing"], s["table"], s["xs"], tol=tol)
+    S.run(ss)
+    reqs, idx = [], []
+    for i, s in enumerate(ss):
+        a = s["impl"]
+        xb = (a.get("log") or {}).get("momtrop_feynman_parameter")
+        if a.get("status") in ("ok", "unstable", "zerodet") and xb:
+            reqs.append({"op": "lmat", "x": xb, "sig": s["routing"]["sig"]}); idx.append(i)
+    ls = run_driver(reqs)
+    dreqs = [{"op": "decomp", "n": ss[i]["routing"]["L"], "a": l.get("l", []), "tol": f2b(ss[i]["tol"])} for i, l in zip(idx, ls)]
+    ds = run_driver(dreqs)
+    for i, l, dr, d in zip(idx, ls, dreqs, ds):
+        s = ss[i]; a = s["impl"]; n = s["routing"]["L"]; tol = s["tol"]
+        ctx.case(["sample", s["req"]["x"], s["req"]["sig"], s["case"]["edges"], s["case"]["weights"], s["req"]["edge_data"], tol], nontrivial=True,
+                 sample=None)
+        ctx.count(f"sample.status.{a.get('status')}"); ctx.count(f"sample.L={n}"); ctx.count(f"sample.tol={tol}")
+        small = S.small_req(s)
+        if "error" in l or "error" in d:
+            ctx.mismatch("model lMatrix/decompose on the logged Feynman parameters", small, a.get("status"), d, "driver error"); continue
+        if a.get("status") == "ok" and a.get("meta") and a["meta"]["l"] != l.get("l"):
+            ctx.mismatch("lMatrix model on the logged Feynman parameters vs Metadata.l_matrix (bits)", small, a["meta"]["l"], l.get("l")); continue
+        if d.get("status") != a.get("status"):
+            ctx.mismatch("decompose model (with the sample's tolerance, on the sample's own L matrix) vs the sample's Ok/ZeroDet/Unstable",
+                         small, {"status": a.get("status")}, {"status": d.get("status")})
+            # failing-input search: an Ok sample whose binary64-evaluated L21 distance exceeds the tolerance it was given
+            if a.get("status") == "ok" and a.get("meta") and all(X.is_finite_bits(b) for b in a["meta"]["decomp"]["inv"] + a["meta"]["l"]):
+                Lf = [[b2f(a["meta"]["l"][r * n + c]) for c in range(n)] for r in range(n)]
+                invf = [[b2f(a["meta"]["decomp"]["inv"][r * n + c]) for c in range(n)] for r in range(n)]
+                dist = float_l21_residual(n, Lf, invf)
+                if dist > tol:
+                    ctx.violation(f"Ok sample although the binary64-evaluated L21 distance of inverse*L from 1 is {dist:.3e} > tolerance {tol:.3e} "
+                                  "(the model of decompose_for_tropical reports Unstable on the same L matrix)", small, expected="unstable",
+                                  observed={"l": a["meta"]["l"], "inv": a["meta"]["decomp"]["inv"]})
+        if a.get("status") == "ok":
+            # the property speaks of the DECOMPOSITION: u = determinant and the factors. (v, and with it the momenta and the jacobian,
+            # can be NaN/negative through the cancellation p^T X p - u^T L^-1 u at extreme points; that is not C16, see DESIGN.md 8.4.)
+            dec = a["meta"]["decomp"] if a.get("meta") else {}
+            flat = [a["u"]] + [b for key in ("qt", "qti", "inv") for b in dec.get(key, [])] + ([dec["det"]] if "det" in dec else [])
+            if any(b2f(b) != b2f(b) for b in flat):
+                ctx.violation("Ok sample whose decomposition contains NaN although the stability test is on", small, observed={"u": a["u"], "decomp": dec}); continue
+            if a.get("meta"):
+                inv = a["meta"]["decomp"]["inv"]; lb = a["meta"]["l"]
+                if all(X.is_finite_bits(b) for b in inv) and all(X.is_finite_bits(b) for b in lb):
+                    ok, val, slack = residual_ok(n, X.mat_from_bits(n, lb), inv, tol)
+                    if not ok:
+                        ctx.violation(f"Ok sample although ||inverse*L-1||_21 = {float(val):.3e} > tol {tol} (+slack {float(slack):.1e})", small,
+                                      observed={"l": lb, "inv": inv})
+                else:
+                    ctx.violation("Ok sample with a non-finite decomposition although the stability test is on", small, observed=a["meta"]["decomp"])
 
 
 def float_l21_residual(n, A, inv):
